@@ -184,6 +184,8 @@ def oracle_c05(st, info, snaps):
             raise Violation("number-fills-region", f"assigning a number raised {exc_class(info.exc)} (key form {form})",
                             cls="number-fills-region", form=form)
         for idx in region:
+            if t.values.dtype != np.float64 and float(np.array(c["rhs"]).astype(t.values.dtype)) != c["rhs"]:
+                continue
             if t.values[idx] != c["rhs"]:
                 raise Violation("number-fills-region", f"entry {idx} of the region is {t.values[idx]}, not {c['rhs']}",
                                 cls="number-fills-region", form=form)
@@ -200,14 +202,12 @@ def oracle_c05(st, info, snaps):
                 if info.outcome != "ret":
                     raise Violation("ndarray-exact-shape", f"whole-array assignment of a correctly shaped ndarray raised {exc_class(info.exc)}",
                                     cls="ndarray-exact-shape")
-                if not values_equal(c["nd_snap"], t.values):
+                if np.shape(t.values) != c["nd_snap"].shape or not np.array_equal(np.asarray(c["nd_snap"], dtype=float), np.asarray(t.values, dtype=float)):
                     raise Violation("ndarray-exact-shape", "whole-array assignment of an ndarray did not store its entries",
                                     cls="ndarray-exact-shape")
         _nd_copied(st, info, "assigned-ndarray-copied")
         return
     # FlodymArray source
-    if ki.has_list:
-        return
     sdims, svals, _, _ = c["rhs_snap"]
     if not isinstance(svals, np.ndarray):
         return
@@ -222,6 +222,16 @@ def oracle_c05(st, info, snaps):
             raise Violation("missing-dim-rejected", f"a source over {sletters} lacking {lacking} of the region's dimensions "
                             f"{[l for l, _ in L]} was accepted", cls="missing-dim-rejected", form=form)
         return
+    if ki.has_list:
+        # item lists: the region keeps the dimension.  Only two things are asserted: a source lacking a region dimension is
+        # refused (above), and *if* the assignment returns while the list names all items in the dimension's own order, the
+        # entries are the by-label sums.  Everything else about list keys with an array source is left open.
+        if info.outcome != "ret":
+            return
+        for d, sl in zip(tdims, ki.sel):
+            if sl is not None and sl[0] == "list" and list(sl[1]) != list(range(len(d[2]))):
+                return
+        st.probe("full_list_key_with_array_source")
     # items of the common letters must agree (same universe); otherwise the property is silent
     for l, items in L:
         sd = sdims[sletters.index(l)]
@@ -256,6 +266,8 @@ def oracle_c05(st, info, snaps):
         for p in kept:
             lab.append(tdims[p][2][idx[p]])
         want = marg[tuple(lab)]
+        if t.values.dtype != np.float64 and float(np.array(want).astype(t.values.dtype)) != want:
+            continue  # lossy cast into an integer / float32 target: the property does not define it
         got = float(t.values[idx])
         ok = (got == want) if exact else (abs(got - want) <= 1e-9 * max(1.0, scale * svals.size))
         if not ok:
@@ -281,8 +293,8 @@ def gen_key(rng, arr, allow_list, f1p):
             elif kind == "subset":
                 sel.append([p, "subset", rng.randint(0, 3)])
             else:
-                sel.append([p, "list", [rng.randint(0, 5) for _ in range(rng.randint(1, 3))]])
-    spec = {"form": form, "sel": sel}
+                sel.append([p, "list", list(range(6)) if rng.chance(0.4) else [rng.randint(0, 5) for _ in range(rng.randint(1, 3))]])
+    spec = {"form": form, "sel": sel, "list_form": rng.weighted([("list", 4), ("tuple", 2), ("nparray", 1)])}
     if rng.chance(f1p):
         spec["f1"] = rng.choice(["unknown_item", "slice_key", "not_subset"])
     return spec
@@ -334,7 +346,7 @@ def gen_op(rng, st, cfg):
         if how == "num":
             rhs = {"num": rng.randint(-3, 9)}
         elif how == "nd":
-            rhs = {"nd": {"vseed": rng.randint(0, 10 ** 6)}}
+            rhs = {"nd": {"vseed": rng.randint(0, 10 ** 6), "dtype": rng.weighted([("float64", 5), ("int64", 2), ("float32", 1)])}}
             sf = gen_shape_fault(rng, fp * 2)
             if sf:
                 rhs["nd"]["shape_fault"] = sf
